@@ -48,11 +48,21 @@ Cap3 == [n \in H3 |-> 2]
 TipsA2 == [H2 -> {"g", "t1", "t2", "a3", "a4", "a5", "a6", "b3", "b4", "b5"}]
 \* three nodes: one holds the heaviest branch, the others anything
 TipsC3 == {f \in [H3 -> {"g", "t1", "a2", "a4", "b3", "c3"}] : \E n \in H3 : f[n] = "a4"}
+\* quick: the heaviest branch at the end (n1) or in the middle (n2) of the line
+TipsC3q == {f \in [H3 -> {"g", "a2", "a4", "b3", "c3"}] : (f["n1"] = "a4" /\ f["n2"] # "a4" /\ f["n3"] # "a4") \/ (f["n2"] = "a4" /\ f["n1"] # "a4" /\ f["n3"] # "a4" /\ f["n1"] = "b3")}
 TipsA3 == {f \in [H3 -> {"t1", "a4", "a6", "b5"}] : \E n \in H3 : f[n] = "a6"}
 
 \* checkpoint family: n2 bootstrapped at t2 (holds t2 and everything above on its chain)
 BaseCp2 == [n \in H2 |-> IF n = "n2" THEN "t2" ELSE "g"]
-TipsCp2 == {f \in [H2 -> {"t2", "a3", "a4", "a5", "a6", "b3", "b4", "b5", "t1", "g"}] : T.h[f["n2"]] >= 2}
+\* n1 (from genesis) must be able to find a common id INSIDE n2's stored range: its history sample
+\* must contain a block of the common chain at or above n2's checkpoint -- a full node cannot sync
+\* from a checkpoint peer otherwise (the peer does not hold the older blocks; see the report)
+TipsCp2 == {f \in [H2 -> {"t2", "a3", "a4", "a5", "a6", "b3", "b4", "b5"}] :
+               \E x \in HistHeights(K, T.h[f["n1"]], 0, FALSE) :
+                   x >= 2 /\ AncAt(T, f["n1"], x) \in AncSet(T, f["n2"])}
+
+\* the assignment that exposes the one-block-behind trap of header-only announcements
+TipsTrap == {[n \in H3 |-> IF n = "n1" THEN "a4" ELSE IF n = "n2" THEN "t1" ELSE "a2"]}
 
 \* byzantine family: victim v, honest peer p (passive or active), Byzantine z
 HB == {"v", "p"}
@@ -62,11 +72,29 @@ BaseB == [n \in HB |-> "g"]
 CapB == [n \in HB |-> 2]
 TipsB == {f \in [HB -> {"g", "t1", "a2", "a4"}] : f["p"] = "a4"}
 
-\* ---- edge export (Leg R): printed once per explored transition, evaluated as ACTION_CONSTRAINT
-Proj(k, t, l, b) ==
-    [tip |-> t, known |-> k, link |-> [n \in H |-> [p \in Nodes \ {n} |-> l[<<n, p>>]]], banned |-> b]
+\* ---- edge export (Leg R): printed once per explored transition, evaluated as ACTION_CONSTRAINT.
+\* The complete state is printed (the replay driver computes quiescent macro-steps on it and the Go
+\* harness compares the projection tip / known / link / banned with the real nodes).
+Full(k, t, l, r, se, sy, b) ==
+    [tip |-> t, known |-> k, link |-> [n \in H |-> [p \in Nodes \ {n} |-> l[<<n, p>>]]],
+     round |-> r, seen |-> se,
+     sync |-> [n \in H |-> [on |-> sy[n].on, src |-> sy[n].src, base |-> sy[n].base, top |-> sy[n].top, nxt |-> sy[n].nxt, rem0 |-> sy[n].rem0]],
+     banned |-> {x[1] \o ">" \o x[2] : x \in b}]
 EmitEdge ==
-    PrintT("EDGE " \o ToJson([from |-> Proj(known, tip, link, banned), act |-> act',
-                              to |-> Proj(known', tip', link', banned'),
-                              fromsync |-> sync, tosync |-> sync']))
+    PrintT("EDGE " \o ToJson([from |-> Full(known, tip, link, round, seen, sync, banned), act |-> act',
+                              to |-> Full(known', tip', link', round', seen', sync', banned')]))
+
+\* Leg R, byzantine family: only the victim's sync loop runs; the honest peer p serves and handles relays
+AllBlocks == DOMAIN T.par
+EdgeTopsB == {"z3", "w4", "v3", "a4"}
+TipsEdgeB == {f \in [HB -> {"t1", "a3", "a4"}] : f["p"] = "a4" /\ f["v"] # "a4"}
+ActiveV == {"v"}
+
+\* Leg R, honest family: v syncs from two passive honest peers holding different forks (TreeC)
+HE == {"v", "p", "q"}
+EdgesE == {<<"v", "p">>, <<"v", "q">>}
+BaseE == [n \in HE |-> "g"]
+CapE == [n \in HE |-> 100]
+CapB100 == [n \in HB |-> 100]
+TipsEdgeE == {f \in [HE -> {"g", "t1", "a2", "a3", "a4", "b3", "c3"}] : f["p"] = "a4" /\ f["q"] \in {"b3", "c3", "a3"} /\ f["v"] \in {"g", "a2", "a3", "b3"}}
 =============================================================================
